@@ -1,12 +1,26 @@
 package main
 
-import "os"
+import (
+	"os"
+)
 
 func (rs *runState) vol(quick, thorough int) int {
 	if rs.tier == "thorough" {
 		return thorough
 	}
 	return quick
+}
+
+// knownExclusions: shapes of recorded known findings (known_findings.json) that the generators leave
+// out by construction so the search continues behind them. Set VERIF_INCLUDE_KNOWN=1 to generate them.
+func knownExclusions() map[string]bool {
+	if os.Getenv("VERIF_INCLUDE_KNOWN") != "" {
+		return map[string]bool{}
+	}
+	return map[string]bool{
+		"continue-with-yielding-post": true,
+		"break-after-yield-in-switch": true,
+	}
 }
 
 // ---- profiles -----------------------------------------------------------------------------------
@@ -24,43 +38,225 @@ func controlFlowProfile() *profile {
 	}
 }
 
+func effectProfile() *profile {
+	p := controlFlowProfile()
+	p.name = "effects"
+	p.vlProb = 35
+	p.w["ev"] = 16
+	p.w["assign"] = 6
+	p.w["closure"] = 4
+	p.w["callstmt"] = 5
+	p.scripts = []string{"std", "cur"}
+	return p
+}
+
+func scopingProfile() *profile {
+	return &profile{
+		name: "scoping", maxDepth: 4, maxStmts: 16,
+		w: map[string]int{
+			"ev": 8, "decl": 14, "assign": 8, "incdec": 4, "yield": 14, "block": 8, "if": 8, "switch": 7, "tswitch": 6,
+			"for": 7, "range": 5, "break": 2, "continue": 2, "return": 1, "closure": 9, "callstmt": 8, "genlit": 2,
+		},
+		elems: []string{"int", "int", "any"}, nGens: [2]int{1, 1},
+		exclude: knownExclusions(), scripts: []string{"std"}, fuel: 300, vlProb: 5,
+	}
+}
+
+func rangeProfile() *profile {
+	return &profile{
+		name: "ranges", maxDepth: 4, maxStmts: 14,
+		w: map[string]int{
+			"ev": 8, "decl": 4, "assign": 3, "yield": 12, "block": 2, "if": 6, "switch": 3,
+			"for": 3, "range": 22, "break": 5, "continue": 5, "return": 1, "closure": 6, "callstmt": 5,
+		},
+		elems: []string{"int", "int", "any"}, nGens: [2]int{1, 1},
+		exclude: knownExclusions(), scripts: []string{"std"}, fuel: 300, vlProb: 5,
+	}
+}
+
+func delegationProfile() *profile {
+	return &profile{
+		name: "delegation", maxDepth: 3, maxStmts: 10,
+		w: map[string]int{
+			"ev": 8, "decl": 3, "assign": 2, "yield": 10, "yieldfrom": 16, "itdecl": 6, "crange": 6, "block": 2, "if": 6, "switch": 4,
+			"for": 6, "break": 2, "continue": 2, "return": 2, "genlit": 4,
+		},
+		elems: []string{"int", "int", "string"}, nGens: [2]int{2, 5},
+		exclude: knownExclusions(), scripts: []string{"std", "short"}, fuel: 400, vlProb: 15,
+	}
+}
+
+func consumerProfile() *profile {
+	return &profile{
+		name: "consumers", maxDepth: 3, maxStmts: 10,
+		w: map[string]int{
+			"ev": 10, "decl": 3, "assign": 5, "yield": 12, "if": 6, "switch": 3, "for": 5, "crange": 6, "itdecl": 4,
+			"break": 6, "continue": 5, "return": 4,
+		},
+		elems: []string{"int", "int", "string", "any"}, nGens: [2]int{1, 2}, consumers: 3,
+		exclude: knownExclusions(), scripts: []string{"std"}, fuel: 300,
+	}
+}
+
+func panicProfile() *profile {
+	p := controlFlowProfile()
+	p.name = "panics"
+	p.panics = true
+	p.w["panic"] = 5
+	p.w["yieldfrom"] = 5
+	p.w["closure"] = 4
+	p.w["callstmt"] = 4
+	p.nGens = [2]int{1, 3}
+	return p
+}
+
+func hasLoopTag(p *Program) bool {
+	return p.hasTag("for3") || p.hasTag("for-cond") || p.hasTag("for-infinite") || p.hasTag("range")
+}
+
+// ---- checks -------------------------------------------------------------------------------------
+
 func init() {
 	checks["C01"] = &checkT{run: func(rs *runState) {
 		rs.rule("generator bodies from the supported control-flow grammar (nesting <= 4, <= 14 statements) x all argument vectors in {0..3}^k x " +
 			"consumer cap 40; oracle: interleaved trace of the compiled generator == trace of the iter.Pull reference; " +
-			"non-trivial = the executed trace has >= 2 yields and the program has a loop, switch or if nest around a yield " +
-			"or a break/continue/return after a yield; distinct by hash(program)+input+script")
+			"non-trivial = the executed trace has >= 2 yields and the program has a loop, else-if chain, yielding init/post " +
+			"or a break/continue/return after a yield; distinct by hash(program)+input+script. The block-end table (every last-statement " +
+			"kind at the end of every block kind, with/without following statements) is enumerated completely as well.")
+		table := blockEndTable()
 		spec := &diffSpec{
-			profiles: []*profile{controlFlowProfile()}, batchSize: 40, batches: rs.vol(12, 300),
+			profiles: []*profile{controlFlowProfile()}, batchSize: 40, batches: rs.vol(40, 1000),
+			fixed: table,
 			nontrivial: func(p *Program, r *Record) bool {
-				return r.Yields >= 2 && (p.hasTag("for3") || p.hasTag("for-cond") || p.hasTag("for-infinite") || p.hasTag("break-after-yield") ||
-					p.hasTag("continue-after-yield") || p.hasTag("return-after-yield") || p.hasTag("yielding-post") || p.hasTag("else-if"))
+				return r.Yields >= 2 && (hasLoopTag(p) || p.hasTag("break-after-yield") ||
+					p.hasTag("continue-after-yield") || p.hasTag("return-after-yield") || p.hasTag("yielding-post") || p.hasTag("else-if") || p.Profile == "block-end-table")
+			},
+		}
+		rs.exh = append(rs.exh, "block-end table: "+itoa(len(table))+" programs (13 block kinds x 38 last-statement kinds x 3 continuations, illegal combinations removed) x inputs 0..3")
+		rs.runDiff(spec)
+	}}
+
+	checks["C02"] = &checkT{run: func(rs *runState) {
+		rs.rule("effect-heavy programs (logged expression evaluations tr.Vl in yielded values, conditions, posts; events before/between/after yields) x " +
+			"consumer scripts varying Current calls (0-2 per step), 2 advances after exhaustion, every early stop as a trace prefix; oracle: interleaved trace equality " +
+			"plus reference-free predicates (no generator-side event before the first advance / after the first false advance); " +
+			"non-trivial = some advance runs >= 2 generator-side events and the trace has >= 2 yields; distinct by hash(program)+input+script")
+		spec := &diffSpec{
+			profiles: []*profile{effectProfile()}, batchSize: 40, batches: rs.vol(25, 500),
+			nontrivial: func(p *Program, r *Record) bool { return r.MaxBetween >= 2 && r.Yields >= 2 },
+		}
+		rs.runDiff(spec)
+	}}
+
+	checks["C03"] = &checkT{run: func(rs *runState) {
+		rs.rule("scoping programs: every block may declare/shadow visible names; shadowing := initialisers of if/for/switch/type-switch, range key/value, " +
+			"type-switch bindings; closures created before a yield and called after it; oracle: trace equality with native Go scoping (reference) and the output must build; " +
+			"non-trivial = the program shadows a name or captures locals in a closure, and the trace has >= 1 yield followed by generator-side events; distinct by hash(program)+input")
+		spec := &diffSpec{
+			profiles: []*profile{scopingProfile()}, batchSize: 40, batches: rs.vol(30, 600),
+			nontrivial: func(p *Program, r *Record) bool {
+				return r.Yields >= 1 && r.Events >= 1 && (p.hasTag("shadow") || p.hasTag("closure-before-yield") || p.hasTag("init-decl"))
 			},
 		}
 		rs.runDiff(spec)
 	}}
-}
 
-func init() {
-	checks["C11"] = &checkT{run: func(rs *runState) {
-		rs.rule("acceptance: programs of the supported grammar x import styles; oracle: the compiler exits 0 without panic and go build -gcflags=-e of the output succeeds; " +
-			"non-trivial = every program (each is a distinct shape); distinct by hash(program)")
+	checks["C04"] = &checkT{run: func(rs *runState) {
+		rs.rule("range loops inside generators: table kind {string,slice,array,map,chan,int incl. typed ints} x variable form {none,k,k_,_v,kv} x {:=,=} x body " +
+			"{yielding, trivial, inside a nested closure, break, continue, nested range, mutating the ranged collection} enumerated completely, plus random range-heavy programs; " +
+			"range expression wrapped in a logged evaluation (exactly once); oracle: trace equality with the native range statement (multiset equality for maps with >= 2 entries); " +
+			"non-trivial = the loop runs >= 2 iterations or the collection is mutated in the body; distinct by hash(program)+input")
+		table := rangeTable()
 		spec := &diffSpec{
-			profiles: []*profile{controlFlowProfile()}, batchSize: 40, batches: rs.vol(12, 300),
-			ownsCompile: true,
+			profiles: []*profile{rangeProfile()}, batchSize: 40, batches: rs.vol(12, 400),
+			fixed: table,
+			nontrivial: func(p *Program, r *Record) bool {
+				return p.hasTag("iterations>=2") || p.hasTag("mutation") || (p.hasTag("range") && r.Events >= 3)
+			},
+		}
+		rs.exh = append(rs.exh, "range table: "+itoa(len(table))+" programs (19 collections x 5 variable forms x 2 tokens x 7 body shapes, impossible combinations removed)")
+		rs.runDiff(spec)
+	}}
+
+	checks["C05"] = &checkT{run: func(rs *runState) {
+		rs.rule("delegation call graphs of 2-5 generators: YieldFrom of earlier generators, of generator literals, of iterator variables advanced by hand 0-2 times, inside loops/switches; " +
+			"recursive tree/chain walks; oracle: trace equality with the reference where YieldFrom(x) is `for x.MoveNext() { yield(x.Current()) }`, and the metamorphic twin " +
+			"(every YieldFrom(x) replaced by `for v := range x { Yield(v) }`) compiled in the same package must give the identical trace; " +
+			"non-trivial = the program delegates and the trace has >= 2 yields; distinct by hash(program)+input+script")
+		spec := &diffSpec{
+			profiles: []*profile{delegationProfile()}, batchSize: 20, batches: rs.vol(25, 500),
+			fixed: recursionPrograms(rs.tier == "thorough"),
+			nontrivial: func(p *Program, r *Record) bool {
+				return r.Yields >= 2 && (p.hasTag("yieldfrom") || p.hasTag("generator-literal") || p.hasTag("recursion"))
+			},
+			mutate: func(_ *rapidT, p *Program) { p.Twin = "yieldfrom-to-range" },
+		}
+		rs.runDiff(spec)
+	}}
+
+	checks["C06"] = &checkT{run: func(rs *runState) {
+		rs.rule("consumer functions over generators: range with :=/= (local, field), break/continue/return inside, nested ranges, pull and range mixed on one iterator, " +
+			"iterators in struct fields/slices/maps/channels/closures/generic containers/interfaces, method and generic generators, iterator of iterators (19 hand-written shapes x 6 import styles) " +
+			"plus random consumer programs; oracle: result and interleaved trace equal to the reference (native range-over-func), which shows that nothing is pulled after leaving a loop; " +
+			"non-trivial = the consumer leaves a loop early or mixes pull and range; distinct by hash(program)+input")
+		var fixed []*Program
+		for i, sh := range consumerShapes {
+			fixed = append(fixed, mkShapeProgram("S"+itoa(1000+i), sh))
+		}
+		spec := &diffSpec{
+			profiles: []*profile{consumerProfile()}, batchSize: 30, batches: rs.vol(20, 400),
+			fixed: fixed, fixedStyles: true,
+			nontrivial: func(p *Program, r *Record) bool {
+				return p.hasTag("consumer") && (p.hasTag("break-after-yield") || p.hasTag("return-after-yield") || p.hasTag("iterator-advanced-by-hand")) || len(p.Profile) > 6 && p.Profile[:6] == "shape:"
+			},
+		}
+		rs.runDiff(spec)
+	}}
+
+	checks["C11"] = &checkT{run: func(rs *runState) {
+		rs.rule("acceptance: the block-end table (every last-statement kind at the end of every block kind) under all 6 import styles, the consumer/type-position shapes, " +
+			"and random programs of all profiles; oracle: the compiler exits 0 without panic and `go build -gcflags=-e` of the output succeeds without the co tag " +
+			"(compile/build casualties of every other engine-T check are the same event); non-trivial = every program (each is a distinct shape); distinct by hash(program)")
+		table := blockEndTable()
+		for i, sh := range consumerShapes {
+			table = append(table, mkShapeProgram("S"+itoa(1000+i), sh))
+		}
+		spec := &diffSpec{
+			profiles: []*profile{controlFlowProfile(), scopingProfile(), rangeProfile(), delegationProfile(), consumerProfile()}, batchSize: 40, batches: rs.vol(20, 600),
+			fixed: table, fixedStyles: true,
+			ownsCompile: true, noTraceOwner: true,
+		}
+		rs.exh = append(rs.exh, "block-end table + type-position shapes: "+itoa(len(table))+" programs x 6 import styles")
+		rs.runDiff(spec)
+	}}
+
+	checks["C18"] = &checkT{run: func(rs *runState) {
+		rs.rule("programs with panic(v) (distinct values) and runtime panics (nil map write) at random statement positions, also inside delegates, loop bodies, switch cases and closures; " +
+			"oracle: trace equality with the reference (iter.Pull propagates the panic out of the advance that ran it): same advance, same value, same prefix; consumption stops at the panic; " +
+			"non-trivial = the reference run panics after >= 1 delivered value; distinct by hash(program)+input")
+		spec := &diffSpec{
+			profiles: []*profile{panicProfile()}, batchSize: 40, batches: rs.vol(20, 400),
+			nontrivial: func(p *Program, r *Record) bool { return r.Panic != "" && r.Yields >= 1 },
 		}
 		rs.runDiff(spec)
 	}}
 }
 
-// knownExclusions: shapes of recorded known findings (known_findings.json) that the generators leave
-// out by construction so the search continues behind them. Set VERIF_INCLUDE_KNOWN=1 to generate them.
-func knownExclusions() map[string]bool {
-	if os.Getenv("VERIF_INCLUDE_KNOWN") != "" {
-		return map[string]bool{}
+func itoa(n int) string {
+	s := ""
+	if n == 0 {
+		return "0"
 	}
-	return map[string]bool{
-		"continue-with-yielding-post": true,
-		"break-after-yield-in-switch": true,
+	neg := n < 0
+	if neg {
+		n = -n
 	}
+	for n > 0 {
+		s = string(rune('0'+n%10)) + s
+		n /= 10
+	}
+	if neg {
+		s = "-" + s
+	}
+	return s
 }
